@@ -149,8 +149,10 @@ def run(ctx):
     binc = cargo_build(ctx, "ctx_h")
     if binc is not None:
         counts = list(range(0, 32)) + [100, 101, 102, 103, 111, 112, 113, 1000, 1000000]
-        rows, _ = run_lines(binc, [{"op": "plural_macros", "locale": l, "counts": counts} for l in ("en", "en-US", "fr", "fr-CA", "de")])
-        for l, r in zip(("en", "en-US", "fr", "fr-CA", "de"), rows):
+        # (locale, locale the context showed when the `t_*` accessor closures were created): an accessor follows the context
+        pm = [("en", None), ("en-US", None), ("fr", None), ("fr-CA", None), ("de", None), ("fr", "en"), ("en", "fr"), ("de", "fr-CA"), ("fr-CA", "en-US")]
+        rows, _ = run_lines(binc, [dict({"op": "plural_macros", "locale": l, "counts": counts}, **({"built_under": b} if b else {})) for l, b in pm])
+        for (l, built), r in zip(pm, rows):
             if "rows" not in r:
                 report_violation(ctx, "plural-macros:panics", {"case": {"op": "plural_macros", "locale": l}, "impl": r})
                 continue
@@ -161,7 +163,7 @@ def run(ctx):
                     ctx.count("plural_macro:" + mac)
                     if row[mac] != exp:
                         report_violation(ctx, "plural-macros:wrong-category", {
-                            "case": {"macro": mac + "!", "locale": l, "count": row["count"]}, "expected_by_spec": exp, "implementation": row[mac],
+                            "case": {"macro": mac + "!", "locale": l, "count": row["count"], "accessor_created_while_the_context_showed": built or l}, "expected_by_spec": exp, "implementation": row[mac],
                             "why": "the macro matches on the %s plural category of the count in the current locale" % ("ordinal" if mac.endswith("_ordinal") else "cardinal"),
                             "harness": "ctx_h plural_macros (ICU4X PluralRules called directly as oracle)"})
                         break
